@@ -13,7 +13,8 @@ RULE = ('Graphs and queries as C12 (random) plus, in the thorough tier, every pr
         'DFS over hop sequences written from the statement (model presence only). time_respecting_paths(sample=1) == that '
         'set when u has an interaction at start (start omitted: always); empty when u has none; sample in {0.3, 0.7} gives '
         'a subset (numpy RNG seeded from the case); all_time_respecting_paths(start, end, min_t=m) == {(u, w): paths} over '
-        'the nodes present at m. non-trivial = the enumerated set has >= 2 paths, one of them with >= 2 hops.')
+        'the nodes present at m; every other case the queried object is then emptied with clear(), refilled with the same history on rotated '
+        'node names and asked again. non-trivial = the enumerated set has >= 2 paths, one of them with >= 2 hops.')
 ASSUMPTIONS = ['e > t', "node ids are ints or '_'-free strings", 'windows lie inside [first id, last id]']
 TECHNIQUE = 'PBT against a brute-force enumeration oracle written from the statement; exhaustive small universes (thorough)'
 BUDGET = {'quick': {'cases': 8000, 'seconds': 50}, 'thorough': {'cases': 60000, 'seconds': 560}}
@@ -160,6 +161,19 @@ def run_case(case, rec):
         if qi == 0:
             mt = [None] + ids
             all_pairs(rec, al, G, O, M, start, end, mt[case.get('mt', 0) % len(mt)], case['cls'])
+    # the same object emptied with clear() and refilled with the same history on rotated node names (same number of
+    # nodes, same per-snapshot counts, different interactions): nothing of the first life may be remembered
+    if len(case['ops']) % 2 == 0 and len(case['nodes']) >= 2:
+        ok, _ = safe(G.clear)
+        if ok:
+            d2 = Driver(dict(case, nodes=case['nodes'][1:] + case['nodes'][:1]))
+            d2.G = G
+            good = all(d2.step(op)['actual'] == 'ok' or op[0] not in ('add', 'add_from', 'path', 'star', 'cycle', 'tpath') for op in case['ops'])
+            if good and d2.M.ids():
+                O2 = pc.PathOracle(d2.M)
+                u, v, start, end = pc.resolve(d2.M, d2.nodes, case['q'][0])
+                one_query(rec, al, G, O2, d2.M, u, v, start, end, case['cls'] + ' (object cleared and refilled on rotated node names)')
+                rec.classify('re-queried after clear() and refill')
     for c in d.classes:
         rec.classify(c)
     return nontrivial
